@@ -2,7 +2,7 @@ use crate::common::frame::{FrameHeader, FrameWriter, FunctionField};
 use crate::common::function::FunctionCode;
 use crate::common::traits::{Loggable, Parse, Serialize};
 use crate::decode::AppDecodeLevel;
-use crate::error::RequestError;
+use crate::error::{InvalidRange, RequestError};
 use crate::exception::ExceptionCode;
 use crate::server::handler::RequestHandler;
 use crate::server::response::{BitWriter, RegisterWriter};
@@ -184,6 +184,10 @@ impl<'a> Request<'a> {
             }
             FunctionCode::WriteMultipleCoils => {
                 let range = AddressRange::parse(cursor)?;
+                let max = crate::constants::limits::MAX_WRITE_COILS_COUNT;
+                if range.count > max {
+                    return Err(InvalidRange::CountTooLargeForType(range.count, max).into());
+                }
                 // don't care about the count, validated b/c all bytes are consumed
                 cursor.read_u8()?;
                 Ok(Request::WriteMultipleCoils(WriteCoils::new(
@@ -193,6 +197,10 @@ impl<'a> Request<'a> {
             }
             FunctionCode::WriteMultipleRegisters => {
                 let range = AddressRange::parse(cursor)?;
+                let max = crate::constants::limits::MAX_WRITE_REGISTERS_COUNT;
+                if range.count > max {
+                    return Err(InvalidRange::CountTooLargeForType(range.count, max).into());
+                }
                 // don't care about the count, validated b/c all bytes are consumed
                 cursor.read_u8()?;
                 Ok(Request::WriteMultipleRegisters(WriteRegisters::new(
